@@ -103,7 +103,7 @@ def build_harness(bins=None):
         for b in bins:
             cmd += ['--bin', b]
     rc, out, err = sh(cmd, cwd=HARNESS)
-    return rc == 0, (out + err)[-6000:]
+    return rc == 0, (out + err)[-(6000 if rc == 0 else 60000):]
 
 def build_lean(targets):
     rc, out, err = sh(['lake', 'build'] + list(targets), cwd=LEAN)
